@@ -393,7 +393,7 @@ def classify(tr):
     inits = sorted(set(c['init']) - {'ABSENT'})
     cyc = _cyclic(dict(edges=c['edges']))
     verdict = 'ok' if tr['verdict'] in ('ok', 'pruned') else tr['verdict']
-    return 'malformed=%s;init=%s;%s;verdict=%s' % (','.join(mal) or 'no', ','.join(inits) or 'empty',
+    return 'malformed=%s;init=%s;%s;verdict=%s' % ('yes' if mal else 'no', 'nonempty' if inits else 'empty',
                                                    'cyclic' if cyc else 'dag', verdict)
 
 
